@@ -24,6 +24,9 @@
 #include "private/common.h"
 #include "runtime.h"
 #include "utils.h"
+#ifdef SODIUM_VERIF
+# include "private/verif.h"
+#endif
 
 static blake2b_compress_fn blake2b_compress = blake2b_compress_ref;
 
@@ -415,6 +418,9 @@ blake2b_pick_best_implementation(void)
     defined(HAVE_SMMINTRIN_H)
     if (sodium_runtime_has_avx2()) {
         blake2b_compress = blake2b_compress_avx2;
+#ifdef SODIUM_VERIF
+        SODIUM_VERIF_EVENT("pick", "blake2b", "avx2");
+#endif
         return 0;
     }
 #endif
@@ -422,16 +428,25 @@ blake2b_pick_best_implementation(void)
     defined(HAVE_SMMINTRIN_H)
     if (sodium_runtime_has_sse41()) {
         blake2b_compress = blake2b_compress_sse41;
+#ifdef SODIUM_VERIF
+        SODIUM_VERIF_EVENT("pick", "blake2b", "sse41");
+#endif
         return 0;
     }
 #endif
 #if defined(HAVE_EMMINTRIN_H) && defined(HAVE_TMMINTRIN_H)
     if (sodium_runtime_has_ssse3()) {
         blake2b_compress = blake2b_compress_ssse3;
+#ifdef SODIUM_VERIF
+        SODIUM_VERIF_EVENT("pick", "blake2b", "ssse3");
+#endif
         return 0;
     }
 #endif
     blake2b_compress = blake2b_compress_ref;
+#ifdef SODIUM_VERIF
+    SODIUM_VERIF_EVENT("pick", "blake2b", "ref");
+#endif
 
     return 0;
     /* LCOV_EXCL_STOP */
